@@ -7,6 +7,7 @@
 //! open <stream#> <kind> <ns hex> <tp hex> <size> -> ok|err:<code>|closed|silent|other:<type>
 //! mid <stream#> <kind> <size> -> sent|fail
 //! probe <ns hex> <tp hex> <ps|rr> -> ok|fail:<text>
+//! oversize -> ok|fail:<text>  (bound replier survives a request that is too large only once tagged)
 //! alive -> ok|fail:<text>
 //! iso -> ok|fail:<text>      (five confusable names used concurrently)
 //! end
@@ -198,6 +199,50 @@ pub async fn probe_isolation(client: &Client, tag: &str) -> Result<(), String> {
     Ok(())
 }
 
+/// a bound replier must survive (and keep being served) when another peer's request fits the frame
+/// limit as sent but not once the server has added its routing tag
+pub async fn probe_oversize(peer: &RawPeer, ns: &str, tp: &str, r: &mut Rng) -> Result<(), String> {
+    async fn register(peer: &RawPeer, kind: &str, ns: &str, tp: &str, r: &mut Rng) -> Result<BiStream, String> {
+        let mut st = peer.open().await.map_err(|e| format!("open:{:?}", e))?;
+        st.send(frame_of(kind, ns, tp, 0, r)).await.map_err(|e| format!("send:{:?}", e))?;
+        match first_reply(&mut st, 2000).await.as_str() {
+            "ok" => Ok(st),
+            other => Err(format!("{}_answered_{}", kind, other)),
+        }
+    }
+    async fn expect_request(rep: &mut BiStream, body: &[u8]) -> Result<MessagePayload, String> {
+        match tokio::time::timeout(Duration::from_millis(2500), rep.next()).await {
+            Err(_) => Err(format!("replier_received_nothing_for_{}", String::from_utf8_lossy(body))),
+            Ok(None) => Err("replier_stream_ended".into()),
+            Ok(Some(Err(e))) => Err(format!("replier_stream_error:{:?}", e)),
+            Ok(Some(Ok(Frame::Message(p)))) if &p.message[..] == body => Ok(p),
+            Ok(Some(Ok(Frame::Message(p)))) => Err(format!("replier_received_other_request_of_{}_bytes", p.message.len())),
+            Ok(Some(Ok(f))) => Err(format!("replier_received_{}", frame_type(&f))),
+        }
+    }
+    let mut rep = register(peer, "regrep", ns, tp, r).await?;
+    let mut req = register(peer, "regreq", ns, tp, r).await?;
+    tokio::time::sleep(Duration::from_millis(60)).await;
+    req.send(Frame::Message(MessagePayload { headers: None, message: b"small-a".to_vec().into() })).await.map_err(|e| format!("send_a:{:?}", e))?;
+    let got = expect_request(&mut rep, b"small-a").await?;
+    rep.send(Frame::Message(MessagePayload { headers: got.headers.clone(), message: b"re-a".to_vec().into() })).await.map_err(|e| format!("reply_a:{:?}", e))?;
+    match tokio::time::timeout(Duration::from_millis(2500), req.next()).await {
+        Ok(Some(Ok(Frame::Message(p)))) if &p.message[..] == b"re-a" => {}
+        other => return Err(format!("requestor_got_{:?}", other.map(|o| o.map(|r| r.map(|f| frame_type(&f).to_string())))).replace(' ', "")),
+    }
+    // fits 1 MiB as sent (9 + n bytes), not with the cid header added
+    let n = 1024 * 1024 - 9 - r.below(20) as usize;
+    req.send(Frame::Message(MessagePayload { headers: None, message: vec![0x42u8; n].into() })).await.map_err(|e| format!("send_big:{:?}", e))?;
+    tokio::time::sleep(Duration::from_millis(150)).await;
+    req.send(Frame::Message(MessagePayload { headers: None, message: b"small-b".to_vec().into() })).await.map_err(|e| format!("send_b:{:?}", e))?;
+    let got = expect_request(&mut rep, b"small-b").await?;
+    rep.send(Frame::Message(MessagePayload { headers: got.headers.clone(), message: b"re-b".to_vec().into() })).await.map_err(|e| format!("reply_b:{:?}", e))?;
+    match tokio::time::timeout(Duration::from_millis(2500), req.next()).await {
+        Ok(Some(Ok(Frame::Message(p)))) if &p.message[..] == b"re-b" => Ok(()),
+        other => Err(format!("requestor_got_{:?}", other.map(|o| o.map(|r| r.map(|f| frame_type(&f).to_string())))).replace(' ', "")),
+    }
+}
+
 fn clean(s: String) -> String {
     s.replace([' ', '\n'], "_").chars().take(90).collect()
 }
@@ -276,6 +321,12 @@ pub async fn run_case(addr: std::net::SocketAddr, certs: &Certs, seed: u64, i: u
         }
         tokio::time::sleep(Duration::from_millis(r.below(15))).await;
     }
+    let (ons, otp) = (good_part(&mut r, seed, i, 20), good_part(&mut r, seed, i, 21));
+    let res = probe_oversize(&peer, &ons, &otp, &mut r).await;
+    let _ = writeln!(out, "oversize -> {}", match res {
+        Ok(()) => "ok".to_string(),
+        Err(e) => format!("fail:{}", clean(e)),
+    });
     // the raw peer goes away; every acknowledged topic must still serve well-behaved clients
     tokio::time::sleep(Duration::from_millis(150)).await;
     drop(streams);
